@@ -262,7 +262,17 @@ impl EncodingVersion for EncodingVersion1 {
         member: &DynamicTypeMember,
         dynamic_data: &mut DynamicData,
     ) -> XTypesResult<()> {
-        Self::deserialize_mmember(deserializer, member, dynamic_data)
+        // Unlike a member of a mutable type, which is searched from the start of the parameter list, the
+        // optional member of a final or appendable type is encoded in place: its header is read here
+        // and the position stays behind its value so that the next member is read from the right place
+        Self::align(deserializer, 4)?;
+        let _pid: u16 = deserializer.deserialize_primitive_type()?;
+        let length: u16 = deserializer.deserialize_primitive_type()?;
+        if length > 0 {
+            deserializer.deserialize_value_with_origin_0(member, dynamic_data)
+        } else {
+            Ok(())
+        }
     }
 
     /// Structures with extensibility MUTABLE, version 1 encoding
@@ -301,7 +311,7 @@ impl EncodingVersion for EncodingVersion1 {
         let orig_pos = deserializer.reader.pos;
         let result = if let Ok(length) = Self::seek_to_pid(deserializer, pid) {
             if length > 0 {
-                deserializer.deserialize_value(member, dynamic_data)
+                deserializer.deserialize_value_with_origin_0(member, dynamic_data)
             } else {
                 Ok(())
             }
@@ -651,7 +661,11 @@ fn is_element_type_kind_primitive(member: &DynamicTypeMember) -> XTypesResult<bo
 impl<'a, E: EndiannessRead, V: EncodingVersion> XTypesDeserializer<'a, E, V> {
     fn new(buffer: &'a [u8], encoding_version: V, endianness: E) -> Self {
         Self {
-            reader: Reader { buffer, pos: 0 },
+            reader: Reader {
+                buffer,
+                pos: 0,
+                origin: 0,
+            },
             _endianness: endianness,
             _encoding_version: encoding_version,
         }
@@ -845,6 +859,19 @@ impl<'a, E: EndiannessRead, V: EncodingVersion> XTypesDeserializer<'a, E, V> {
         }
 
         Ok(dynamic_data)
+    }
+
+    /// Serialization rule: PUSH( ORIGIN=0 ) { O : Value(O.type) }
+    /// The value of a version 1 parameter is aligned relative to its own first byte
+    fn deserialize_value_with_origin_0(
+        &mut self,
+        member: &DynamicTypeMember,
+        dynamic_data: &mut DynamicData,
+    ) -> XTypesResult<()> {
+        let origin = core::mem::replace(&mut self.reader.origin, self.reader.pos);
+        let result = self.deserialize_value(member, dynamic_data);
+        self.reader.origin = origin;
+        result
     }
 
     /// Serialization rule: { O : Value(O.type) }
@@ -1288,6 +1315,8 @@ impl AsBytes for char {
 struct Reader<'a> {
     buffer: &'a [u8],
     pos: usize,
+    /// Position the alignment is relative to: rule PUSH( ORIGIN=0 ) moves it to the start of a parameter value
+    origin: usize,
 }
 
 impl<'a> Reader<'a> {
@@ -1324,7 +1353,8 @@ impl<'a> Reader<'a> {
 
     fn seek_padding(&mut self, alignment: usize) -> XTypesResult<()> {
         let mask = alignment - 1;
-        self.seek(((self.pos + mask) & !mask) - self.pos)
+        let offset = self.pos - self.origin;
+        self.seek(((offset + mask) & !mask) - offset)
     }
 }
 
